@@ -127,6 +127,10 @@ func c02Case(r *lib.Run, cfg *lib.Cfg, g *lib.Gen, t ygot.GoStruct, sub *lib.Nod
 		return
 	}
 	if err != nil {
+		if strings.Contains(err.Error(), "got empty leaf list") {
+			r.Violate("rejected", "empty-leaf-list", err.Error(), w(map[string]interface{}{"notifications": notifStrings(ns)}))
+			return
+		}
 		r.ViolateErr("rejected", err, w(map[string]interface{}{"notifications": notifStrings(ns)}))
 		return
 	}
